@@ -1376,7 +1376,7 @@ def main():
     rc, mc = check('unwinding', z3.Not(all_done(states[K])), 'unsat')
     # (d) witness: a complete run exists in which something happened
     if args.mode == 'work':
-        wit = z3.And(all_done(states[K]), states[K]['returned'], states[K]['count.0'] == BV(1), states[K]['spawned'] == BV(args.workers - 1))
+        wit = z3.And(all_done(states[K]), states[K]['returned'], states[K]['count.0'] == BV(1))
     else:
         wit = z3.And(all_done(states[K]), states[K]['inv.0'] == BV(1))
     rd, md = check('witness', wit, 'sat')
